@@ -98,7 +98,26 @@ func c07Render(files []c07File, page string, data [][2]string) Obs {
 		if _, ok := m["layouts/base.vuego"]; !ok {
 			m["layouts/base.vuego"] = &fstest.MapFile{Data: []byte(`<em data-f="ghost" data-a="" data-b=""></em><section v-html="content"></section>`)}
 			t := vuego.NewFS(m)
+			if c07Prev%2 == 1 {
+				// ... and that has rendered a page through that default layout (so the engine has parsed it)
+				m["ghostpage.vuego"] = &fstest.MapFile{Data: []byte(`<p>ghost page</p>`)}
+				var sink bytes.Buffer
+				_ = t.Load("ghostpage.vuego").Render(context.Background(), &sink)
+				delete(m, "ghostpage.vuego")
+			}
 			delete(m, "layouts/base.vuego")
+			mk = func() vuego.Template { return t }
+		}
+	case 5:
+		// a renderer that rendered a page while there was NO default layout; the layout exists by the time of the render
+		if b, ok := m["layouts/base.vuego"]; ok {
+			delete(m, "layouts/base.vuego")
+			t := vuego.NewFS(m)
+			m["plainpage.vuego"] = &fstest.MapFile{Data: []byte(`<p>plain page</p>`)}
+			var sink bytes.Buffer
+			_ = t.Load("plainpage.vuego").Render(context.Background(), &sink)
+			delete(m, "plainpage.vuego")
+			m["layouts/base.vuego"] = b
 			mk = func() vuego.Template { return t }
 		}
 	}
@@ -251,7 +270,7 @@ func runC07(r *Run) {
 	emit := func(c cfg) {
 		c07LoadFirst = r.Rng.Intn(3) == 0 // Load(page).Fill(data): the page's front-matter still wins over the filled data
 		r.Count(fmt.Sprintf("order:load-first=%v", c07LoadFirst))
-		c07Ctor = r.Rng.Intn(6) // 0,4,5: NewFS; 1: New(WithFS); 2: built before the layouts existed; 3: built while a default layout existed
+		c07Ctor = r.Rng.Intn(6) // 0,4: NewFS; 5: rendered a page while no default layout existed, which exists now; 3 with an odd c07Prev: has rendered a page through a default layout that is gone now; 1: New(WithFS); 2: built before the layouts existed; 3: built while a default layout existed
 		r.Count(fmt.Sprintf("constructor:%d", c07Ctor))
 		c07FenceStyle = 0
 		if r.Rng.Intn(3) == 0 {
